@@ -160,6 +160,13 @@ func loadWorld(repo string, needs int) (*World, error) {
 	newKeys := newFuncKeys(abs, allNameOv)
 	overlay, notes := buildOverlay(abs, abs, newKeys, nameOv, "./tars/...")
 	w.Notes = append(w.Notes, notes...)
+	if d := os.Getenv("TARSVERIF_DUMP_OVERLAY"); d != "" { // developer aid: what is analysed instead of the files on disk
+		for name, src := range overlay {
+			rel, _ := filepath.Rel(abs, name)
+			_ = os.MkdirAll(filepath.Join(d, filepath.Dir(rel)), 0o755)
+			_ = os.WriteFile(filepath.Join(d, rel), src, 0o644)
+		}
+	}
 	roots, err := loadModule(abs, w.Fset, overlay, "./tars/...")
 	if err != nil && overlay != nil {
 		w.Notes = append(w.Notes, "name/helper normalisation abandoned (the rewritten source does not type-check: "+firstLine(err.Error())+"); analysing the source as written")
